@@ -198,6 +198,14 @@ def run (ctx):
   # version check -> connection dropped
   vr = [n for n in g.nodes if n.kind == 'return' and isinstance(n.ast.value, ast.Constant) and n.ast.value.value is False and any('OFP_VERSION' in f_ for f_ in q.fact_strs(g, n))]
   ctx.ob('R-EFFECT', f, "a wrong protocol version drops the connection", bool(vr), "return False under version mismatch", f, 'D2')
+  # ... and it is looked at for every message, at the message's own first byte: several messages arrive in one segment, and a verdict
+  # on the first one says nothing about the ones behind it
+  vc = [n_ for n_ in g.nodes if n_.kind == 'cond' and n_.ast is not None and 'OFP_VERSION' in norm(n_.ast)]
+  body_ = g.loop_body_nodes(L.head)
+  per_msg = [n_ for n_ in vc if n_ in body_ and any(isinstance(x_, ast.Subscript) and norm(x_.value) == L.buf and (norm(x_.slice) == (L.cur or '0')) for x_ in ast.walk(n_.ast))]
+  ctx.ob('R-ALL', f, "the protocol version of every framed message is examined", bool(per_msg), "version byte at the cursor, inside the framing loop" if per_msg else
+         "the version test %s is not made per message at `%s[%s]`: a message with an unsupported version byte that is not the first in the receive buffer (coalesced into one segment with its predecessors) is decoded as OpenFlow 1.0 and acted upon "
+         "instead of the connection being dropped" % ([norm(n_.ast)[:40] for n_ in vc][:1], L.buf, L.cur or '0'), (f.module, vc[0].ast) if vc else f, 'D2')
   # code that runs inside Connection.read() (the per-message handlers) must leave the socket object alone: read() keeps
   # returning True, so the task keeps the connection in its select list - with a closed descriptor (fileno -1) the next
   # Select raises in the hub and no connection is served any more.  Handlers give up a connection with disconnect() (shutdown:
